@@ -57,6 +57,8 @@ def may_be_none(t) -> bool:
         return may_be_none(t[2]) or may_be_none(t[3])
     if isinstance(t, tuple) and t and t[0] == "single":
         return may_be_none(t[3])
+    if isinstance(t, tuple) and t and t[0] == "call" and t[1] == ".get" and len(t[2]) in (2, 3):
+        return len(t[2]) == 2 or may_be_none(t[2][2])        # mapping.get(k) is None when k is absent
     return False
 
 
@@ -190,6 +192,52 @@ def rule_shape(rep: Report, rid="C17.shape", rid_none="C17.none") -> None:
         for x in ents or []:
             if x[3] is not None:
                 check("PickleStep", x[3], c.tree, c.I, f"compiler {tag} pickle step", cr.CFILE, line, cr._fn_at(c, line))
+        # everything nested in the pickle (arguments, rows, cells): no field may be emitted as null.  Values are judged
+        # under the conditions of the path that leads to them (the arm of a selection they sit in, the guards of their entry)
+        if e["node"][3]:
+            seen_n: set = set()
+            stack = [(e["node"][3][0], ())]
+            while stack:
+                t, assume = stack.pop()
+                if not isinstance(t, tuple) or not t:
+                    continue
+                if t[0] == "cond":
+                    a_ = dict(assume)
+                    atoms_ = []
+                    nf._test_atoms(t[1], atoms_)
+                    try:
+                        v_ = nf.eval_test(t[1], a_)
+                        stack.append((t[2] if v_ else t[3], assume))
+                    except KeyError:
+                        if len(atoms_) == 1 and atoms_[0] == t[1]:
+                            stack.append((t[2], assume + ((t[1], True),)))
+                            stack.append((t[3], assume + ((t[1], False),)))
+                        else:
+                            stack.append((t[2], assume))
+                            stack.append((t[3], assume))
+                    continue
+                if t[0] == "ref":
+                    if (t, assume) in seen_n:
+                        continue
+                    seen_n.add((t, assume))
+                    o = c.I.obj(t)
+                    if isinstance(o, HDict):
+                        for k, v, g in nf.dict_content(c.I, t, c.tree) or []:
+                            here = dict(assume)
+                            for gc, gp in g or ():
+                                here.setdefault(gc, gp)
+                            v2 = nf.resolve_conds(v, here) if isinstance(v, tuple) else v
+                            if is_const(k) and not (isinstance(v, tuple) and v and v[0] == "dropnone") and may_be_none(v2):
+                                rep.ob(rid_none, f"compiler {tag}: no field nested in a pickle can be emitted as null", False, file=cr.CFILE, line=line,
+                                       function=cr._fn_at(c, line), expected="absent rather than null", found=f"{k[1]} = {fmt(v2, c.I)[:120]}")
+                            stack.append((v2, tuple(here.items())))
+                    elif hasattr(o, "segs"):
+                        for kind, term, _l, _g in nf.seg_elems(nf.flatten_segs(c.I, nf.list_content(c.I, t, c.tree), c.tree)):
+                            stack.append((term, assume))
+                    continue
+                for x in t:
+                    if isinstance(x, tuple):
+                        stack.append((x, assume))
         d = cr._pickle(c, e)
         if d and "tags" in d and d["tags"][0][0] == "ref":
             sl = cr.single_loop_list(c.I, c.tree, d["tags"][0])
